@@ -89,3 +89,23 @@ def sample_pairs(docs, budget, seed, neighbours=True):
 def chunks(seq, n):
     k = max(1, (len(seq) + n - 1) // n)
     return [seq[i:i + k] for i in range(0, len(seq), k)]
+
+
+# Distinct values of the same type with EQUAL Python hashes (CPython: hash(-1) == hash(-2) == -2; int hashes are taken modulo
+# 2**61 - 1; float hashes agree with the equal int): code that decides equality by a cached hash confuses exactly these.
+HASH_TWINS = [(-1, -2), (0, 2 ** 61 - 1), (1, 2 ** 61), (-1.0, -2.0), (7, 7 + 2 ** 61 - 1)]
+
+
+def hash_collision_pairs():
+    """Pairs of documents that differ only in hash-colliding scalars, in every kind of position."""
+    out = []
+    for x, y in HASH_TWINS:
+        assert hash(x) == hash(y) and x != y
+        shapes = [lambda v: [v], lambda v: {"k": v}, lambda v: [v, "a", 5], lambda v: {"a": {"b": v}, "c": 1}, lambda v: [[v], [v, 1]],
+                  lambda v: {"name": "x", "offset": v}, lambda v: ["p", v, "s"], lambda v: [{"id": v}, {"id": 3}], lambda v: v]
+        for sh in shapes:
+            out.append((sh(x), sh(y)))
+            out.append((sh(y), sh(x)))
+        out.append(([x, y], [y, x]))
+        out.append(({"a": x, "b": y}, {"a": y, "b": x}))
+    return out
